@@ -811,7 +811,141 @@ func c03TmInit(repo string, fset *token.FileSet) (string, error) {
 	if needAll == "" || capN == "" || !list {
 		return "", fmt.Errorf("initTaskManager: needAll / done / l not all found")
 	}
-	return "mkTmInit " + needAll + " " + capN, nil
+	eagerWf, err := c03EagerRule(repo, fset)
+	if err != nil {
+		return "", err
+	}
+	return "mkTmInit " + needAll + " " + capN + " " + eagerWf, nil
+}
+
+// (*graph).compile (graph.go): which graphs run eagerly -
+//
+//	eager := false; if isWorkflow(g.cmp) { eager = true }      (or  eager := isWorkflow(g.cmp))
+//	... &runner{ .. eager: eager, .. }
+//
+// "true" = exactly the Workflows; any other assignment to the variable = "false" (recognised, different)
+func c03EagerRule(repo string, fset *token.FileSet) (string, error) {
+	f, err := parser.ParseFile(fset, filepath.Join(repo, "compose", "graph.go"), nil, 0)
+	if err != nil {
+		return "", err
+	}
+	fn := c03Method(f, "graph", "compile")
+	if fn == nil {
+		return "", fmt.Errorf("(*graph).compile not found")
+	}
+	recv := c03RecvName(fn)
+	isWf := func(e ast.Expr) bool {
+		return strings.ReplaceAll(c03Str(c03Unparen(e)), " ", "") == "isWorkflow("+recv+".cmp)"
+	}
+	// the variable handed to the runner
+	v := ""
+	ast.Inspect(fn.Body, func(n ast.Node) bool {
+		if cl, ok := n.(*ast.CompositeLit); ok {
+			if id, ok := cl.Type.(*ast.Ident); ok && id.Name == "runner" {
+				for _, el := range cl.Elts {
+					if kv, ok := el.(*ast.KeyValueExpr); ok && c03Str(kv.Key) == "eager" {
+						if id, ok := c03Unparen(kv.Value).(*ast.Ident); ok {
+							v = id.Name
+						} else if isWf(kv.Value) {
+							v = "@wf"
+						} else {
+							v = "@other"
+						}
+					}
+				}
+			}
+		}
+		return true
+	})
+	switch v {
+	case "":
+		return "", fmt.Errorf("compile: the runner literal has no eager field")
+	case "@wf":
+		return "true", nil
+	case "@other":
+		return "false", nil
+	}
+	// every assignment to v in the body of compile, in order (top level and inside ifs)
+	type asg struct {
+		val   string // "false" | "true" | "wf" | "other"
+		guard string // "" (unconditional) | "wf" | "other"
+	}
+	var asgs []asg
+	var walk func(l []ast.Stmt, guard string)
+	classify := func(e ast.Expr) string {
+		e = c03Unparen(e)
+		if id, ok := e.(*ast.Ident); ok && (id.Name == "true" || id.Name == "false") {
+			return id.Name
+		}
+		if isWf(e) {
+			return "wf"
+		}
+		return "other"
+	}
+	walk = func(l []ast.Stmt, guard string) {
+		for _, s := range l {
+			switch x := s.(type) {
+			case *ast.AssignStmt:
+				for i, lh := range x.Lhs {
+					if id, ok := lh.(*ast.Ident); ok && id.Name == v {
+						val := "other"
+						if len(x.Rhs) == len(x.Lhs) {
+							val = classify(x.Rhs[i])
+						}
+						asgs = append(asgs, asg{val, guard})
+					}
+				}
+			case *ast.DeclStmt:
+				if gd, ok := x.Decl.(*ast.GenDecl); ok {
+					for _, sp := range gd.Specs {
+						if vs, ok := sp.(*ast.ValueSpec); ok {
+							for i, nm := range vs.Names {
+								if nm.Name == v {
+									val := "false" // zero value
+									if i < len(vs.Values) {
+										val = classify(vs.Values[i])
+									}
+									asgs = append(asgs, asg{val, guard})
+								}
+							}
+						}
+					}
+				}
+			case *ast.IfStmt:
+				g := "other"
+				if guard == "" && x.Init == nil && isWf(x.Cond) {
+					g = "wf"
+				}
+				walk(x.Body.List, g)
+				switch e := x.Else.(type) {
+				case *ast.BlockStmt:
+					walk(e.List, "other")
+				case *ast.IfStmt:
+					walk([]ast.Stmt{e}, "other")
+				}
+			case *ast.BlockStmt:
+				walk(x.List, guard)
+			case *ast.ForStmt:
+				walk(x.Body.List, "other")
+			case *ast.RangeStmt:
+				walk(x.Body.List, "other")
+			case *ast.SwitchStmt:
+				for _, cc := range x.Body.List {
+					walk(cc.(*ast.CaseClause).Body, "other")
+				}
+			}
+		}
+	}
+	walk(fn.Body.List, "")
+	switch {
+	case len(asgs) == 1 && asgs[0] == asg{"wf", ""}:
+		return "true", nil
+	case len(asgs) == 2 && asgs[0] == asg{"false", ""} && asgs[1] == asg{"true", "wf"}:
+		return "true", nil
+	case len(asgs) == 0:
+		return "", fmt.Errorf("compile: %s is never assigned", v)
+	}
+	return "false", nil
 }
 
 func c03ExtractTm(repo string) (string, string, error) {
